@@ -952,7 +952,8 @@ func (e *explorer) observe(ops []opSpec, in *inst, prev []int8, s *stats) (kind,
 		}
 	}
 	// Billet.Traverse from the root hash: every stored node once per occurrence, in pre-order
-	if root != (util.Uint256{}) {
+	// (history-independent given the walk above: only after short histories here, and on every content of part D)
+	if root != (util.Uint256{}) && len(ops) <= 2 {
 		var got [][]byte
 		bl := mpt.NewBillet(root, in2.mode&^mpt.ModeGCFlag, mpt.DummySTTempStoragePrefix, st)
 		if err := bl.Traverse(func(_ []byte, _ mpt.Node, nb []byte) bool { got = append(got, nb); return false }, false); err != nil {
@@ -985,6 +986,9 @@ func (e *explorer) observe(ops []opSpec, in *inst, prev []int8, s *stats) (kind,
 		}
 	}
 	// TrieStore over a backend that is not a MemCachedStore (persisted MemoryStore), temp storage prefix
+	if len(ops) > 2 {
+		return "", ""
+	}
 	if _, err := st.Persist(); err != nil {
 		return "persist", err.Error()
 	}
@@ -1751,6 +1755,27 @@ func (g *global) partD(u *uni, c []int8, s *stats) {
 			g.queryFail("billet-traverse:stop", u, c, fmt.Sprintf("stop after %d nodes", n), fmt.Sprintf("error %v, %d nodes visited (or other nodes than the first %d of the pre-order)", err, len(got), n))
 		}
 	}
+	// TrieStore over a backend that is not a MemCachedStore, temp storage prefix
+	if _, err := flushed.st.Persist(); err != nil {
+		g.r.Violation("persist:D:"+u.show(c), err.Error())
+	}
+	{
+		ts2 := mpt.NewTrieStore(root, mpt.ModeAll, flushed.ms)
+		for _, p := range [][]byte{{}, {0x12}, {0x12, 0x34}} {
+			for _, bw := range []bool{false, true} {
+				s.querySeeks++
+				if bad, cls := doSeekP(ts2, storage.STTempStorage, m, p, nil, bw, 0); bad != "" {
+					g.queryFail("seek-plain-store:"+cls, u, c, fmt.Sprintf("temp storage prefix, prefix=%s backwards=%v", shortHex(p), bw), bad)
+				}
+			}
+		}
+		for i, k := range u.Keys {
+			v, err := ts2.Get(append([]byte{byte(storage.STTempStorage)}, k...))
+			if (c[i] >= 0) != (err == nil) || (err == nil && !bytes.Equal(v, u.Vals[c[i]])) {
+				g.queryFail("triestore-get-plain-store", u, c, "Get("+u.KN[i]+")", fmt.Sprintf("%x.., %v", v[:min(len(v), 4)], err))
+			}
+		}
+	}
 	// TrieStore is read-only: the documented refusals, and nothing changes
 	{
 		ts := mpt.NewTrieStore(root, mpt.ModeAll, flushed.st)
@@ -1905,6 +1930,9 @@ func TestCheck(t *testing.T) {
 					return
 				}
 				for _, o2 := range alpha {
+					if e.g.r.TooMany() {
+						return
+					}
 					e.node([]opSpec{o1, o2}, s)
 				}
 			}})
@@ -1981,6 +2009,9 @@ func TestCheck(t *testing.T) {
 		seconds := allBatches(len(u.Keys), keys, []int8{0, 1, 2, 3})
 		jobs = append(jobs, job{part, 1, func(s *stats) {
 			for _, b := range seconds {
+				if g.r.TooMany() {
+					return
+				}
 				e.node([]opSpec{b}, s) // including the empty batch
 			}
 		}})
